@@ -174,7 +174,9 @@ def units(props=('C06', 'C08', 'C09')):
         segs = []
         for si, n in enumerate(shapes[k]):
             t = sym_int(it, 'seg%d_type' % si, 0, 255)
-            segs.append((t, [sym_int(it, 'as%d_%d' % (si, j), 0, 2 ** 32 - 1 if a4 else 65535) for j in range(n)]))
+            # AS numbers as sums of their octets (base-256 digit hint): the decoder's byte arithmetic matches structurally
+            from .mp_units import sym_digits
+            segs.append((t, [sym_digits(it, 'as%d_%d' % (si, j), 4 if a4 else 2) for j in range(n)]))
         it._aspath_in = (segs, a4)
         return [SBytes.of(A.as_path_body(segs, a4)), a4]
 
@@ -299,7 +301,7 @@ def octet(addr, k):
     return mk_num((to_term(addr) / (2 ** (24 - 8 * k))) % 256)
 
 
-def dotted_prefix_text(addr, plen, len_value=None):
+def dotted_prefix_text(addr, plen, len_value=None, octs=None):
     """the decoder's text for <plen, addr>: octets beyond ceil(plen/8) are 0, the last one masked to plen bits"""
     n = (plen + 7) // 8
     parts = []
@@ -307,10 +309,10 @@ def dotted_prefix_text(addr, plen, len_value=None):
         if k:
             parts.append('.')
         if k < n - 1 or (k == n - 1 and plen % 8 == 0):
-            o = octet(addr, k)
+            o = octet(addr, k) if octs is None else mk_num(octs[k])
         elif k == n - 1:
             r = plen % 8
-            o = octet(addr, k)
+            o = octet(addr, k) if octs is None else mk_num(octs[k])
             o = (o >> (8 - r)) << (8 - r) if isinstance(o, int) else mk_num((to_term(o) / (2 ** (8 - r))) * (2 ** (8 - r)))
         else:
             o = 0
@@ -521,18 +523,26 @@ def update_units(props):
 
 
 def sym_attr_values(it, a4):
-    hi = 2 ** 32 - 1 if a4 else 65535
-    return {'origin': sym_int(it, 'v_origin', 0, 2), 'as': [sym_int(it, 'v_as%d' % i, 0, hi) for i in range(2)],
-            'seg': sym_int(it, 'v_seg', 1, 4), 'nh': sym_int(it, 'v_nh', 0, 2 ** 32 - 1), 'med': sym_int(it, 'v_med', 0, 2 ** 32 - 1),
-            'lp': sym_int(it, 'v_lp', 0, 2 ** 32 - 1), 'agg_as': sym_int(it, 'v_agg_as', 0, hi),
-            'agg_ip': sym_int(it, 'v_agg_ip', 0, 2 ** 32 - 1), 'comm': sym_int(it, 'v_comm', 0, 2 ** 32 - 1),
-            'oid': sym_int(it, 'v_oid', 0, 2 ** 32 - 1), 'cl': sym_int(it, 'v_cl', 0, 2 ** 32 - 1),
-            'lc': [sym_int(it, 'v_lc%d' % i, 0, 2 ** 32 - 1) for i in range(3)],
-            'as4': [sym_int(it, 'v_as4_%d' % i, 0, 2 ** 32 - 1) for i in range(2)],
-            'agg4_as': sym_int(it, 'v_agg4_as', 0, 2 ** 32 - 1)}
+    """attribute field values; the fixed-width ones as sums of their octets (base-256 digit hints), so that neither direction of
+    a codec makes the solver undo div/mod chains"""
+    from .mp_units import sym_digits
+    w = 4 if a4 else 2
+    D = lambda name, width: sym_digits(it, name, width)
+    return {'origin': sym_int(it, 'v_origin', 0, 2), 'as': [D('v_as%d' % i, w) for i in range(2)],
+            'seg': sym_int(it, 'v_seg', 1, 4), 'nh': D('v_nh', 4), 'med': D('v_med', 4),
+            'lp': D('v_lp', 4), 'agg_as': D('v_agg_as', w),
+            'agg_ip': D('v_agg_ip', 4), 'comm': D('v_comm', 4),
+            'oid': D('v_oid', 4), 'cl': D('v_cl', 4),
+            'lc': [D('v_lc%d' % i, 4) for i in range(3)],
+            'as4': [D('v_as4_%d' % i, 4) for i in range(2)],
+            'agg4_as': D('v_agg4_as', 4)}
 
 
 def comm_text_sym(v):
+    octs = getattr(v, 'octs', None)
+    if octs is not None and len(octs) == 4:
+        # the two halves straight from the octets (the value is registered as their base-256 sum)
+        return STR.concat([STR.dec(mk_num(octs[0] * 256 + octs[1])), ':', STR.dec(mk_num(octs[2] * 256 + octs[3]))])
     t = to_term(v)
     return STR.concat([STR.dec(mk_num(t / 65536)), ':', STR.dec(mk_num(t % 65536))])
 
@@ -701,7 +711,8 @@ def prefix_step_unit(props):
             p.prove('%s/well-formed-element-does-not-raise' % tag, z3.BoolVal(False), detail='raised %s' % raised.clsname)
             raise LoopCut()
         addr = mk_num(sum([pre.at(off + 1 + k) * (2 ** (24 - 8 * k)) for k in range(n)], z3.IntVal(0)))
-        text = dotted_prefix_text(addr, l, len_value=SNum(lt))
+        # the element's own octets are used directly (not re-derived from their sum by div/mod: the solver was unstable on that)
+        text = dotted_prefix_text(addr, l, len_value=SNum(lt), octs=[pre.at(off + 1 + k) for k in range(n)] + [z3.IntVal(0)] * 4)
         exp = {'prefix': text, 'path_id': mk_num(pre.be_int(0, 4))} if ap else text
         _prove_same(p, '%s/appends-exactly-the-element' % tag, [exp], env['prefixes'])
         _prove_same(p, '%s/leaves-exactly-the-rest' % tag, pre.slice(off + 1 + n, None), env['postfix'])
